@@ -489,13 +489,18 @@ def gen_validation(ctx, cuqi, thorough):
     rng = ctx.rng
     items = []
 
-    def gamma(nm, dim=1):
+    def gamma(nm, dim=1, how="geometry"):
+        """Gamma prior; non-scalar in three ways: vector shape, vector rate, or scalar parameters with geometry=dim"""
         if dim == 1:
             return D.Gamma(2.0, 3.0, name=nm)
+        if how == "shape":
+            return D.Gamma(2.0 * np.ones(dim), 3.0, name=nm)
+        if how == "rate":
+            return D.Gamma(2.0, 3.0 * np.ones(dim), name=nm)
         return D.Gamma(2.0, 3.0, geometry=dim, name=nm)
 
-    def add(label, lik, mk, conforming, fam, vars_of=None, prior_gamma=True, prior_dim=1, preset=True, loc0=True, is_post=True, par="s"):
-        items.append({"label": label, "lik": lik, "mk": mk, "conforming": conforming, "fam": fam, "vars_of": vars_of,
+    def add(label, lik, mk, conforming, fam, vars_of=None, prior_gamma=True, prior_dim=1, preset=True, loc0=True, is_post=True, par="s", outside=None):
+        items.append({"label": label, "outside": outside, "lik": lik, "mk": mk, "conforming": conforming, "fam": fam, "vars_of": vars_of,
                       "prior_gamma": prior_gamma, "prior_dim": prior_dim, "preset": preset, "loc0": loc0, "is_post": is_post, "par": par})
 
     n = 3
@@ -503,26 +508,31 @@ def gen_validation(ctx, cuqi, thorough):
     for label, key, body, conf in dependences(rng, thorough):
         nm = rng.choice(["s", "d"])
         f = mk_lambda(nm, body.format(x=nm))
+        # outside the supported structure, unless it is the supported form times a constant (c*s, 1/(c*s): still drawn
+        # exactly because c enters through L at s = 1 -- acceptance of those is left to the oracle)
+        scaled = label in ("two", "half", "near", "two-recip", "recip-near") or \
+            (label.startswith("pow:") and label.endswith(":p=1" if key == "prec" else ":p=-1"))
+        outside = None if (conf or scaled) else "dependence"
         # Gaussian
         def mkG(f=f, key=key, nm=nm):
             y = D.Gaussian(np.zeros(n), name="y", **{key: f})
             return D.Posterior(y.to_likelihood(b), gamma(nm)), [("mean", y.mean), (key, f)]
-        add(f"gaussian:{key}:{label}", "gaussian", mkG, conf, "gauss", par=nm)
+        add(f"gaussian:{key}:{label}", "gaussian", mkG, conf, "gauss", par=nm, outside=outside)
         # Regularised Gaussian
         def mkR(f=f, key=key, nm=nm):
             y = RegularizedGaussian(np.zeros(n), constraint="nonnegativity", name="y", **{key: f})
             return D.Posterior(y.to_likelihood(b), gamma(nm)), [("mean", y.mean), (key, f)]
-        add(f"reggaussian:{key}:{label}", "reggaussian", mkR, conf, "reg", par=nm)
+        add(f"reggaussian:{key}:{label}", "reggaussian", mkR, conf, "reg", par=nm, outside=outside)
         if key == "prec":
             for bc in ["zero"]:   # the boundary condition plays no role in validation; periodic/neumann sampling is stream A
                 def mkM(f=f, nm=nm, bc=bc):
                     x = D.GMRF(np.zeros(n), prec=f, bc_type=bc, name="x")
                     return D.Posterior(x.to_likelihood(b), gamma(nm)), [("mean", x.mean), ("prec", f)]
-                add(f"gmrf:{bc}:prec:{label}", "gmrf", mkM, conf, "gmrf", par=nm)
+                add(f"gmrf:{bc}:prec:{label}", "gmrf", mkM, conf, "gmrf", par=nm, outside=outside)
             def mkRM(f=f, nm=nm):
                 x = RegularizedGMRF(np.zeros(n), prec=f, constraint="nonnegativity", name="x")
                 return D.Posterior(x.to_likelihood(b), gamma(nm)), [("mean", x.mean), ("prec", f)]
-            add(f"reggmrf:prec:{label}", "reggmrf", mkRM, conf, "reg", par=nm)
+            add(f"reggmrf:prec:{label}", "reggmrf", mkRM, conf, "reg", par=nm, outside=outside)
         # LMRF (approximate sampler's pair): scale = f
         def mkL(f=f, nm=nm):
             x = D.LMRF(0, f, geometry=n, name="x")
@@ -556,48 +566,55 @@ def gen_validation(ctx, cuqi, thorough):
         def mkK(f=f, key=key):
             y = D.Gaussian(np.zeros(n), name="y", **{key: f})
             return D.Posterior(y.to_likelihood(b), gamma("s")), [("mean", y.mean), (key, f)]
-        add(f"gaussian:{key}:{body}", "gaussian", mkK, body in ("np.sqrt(s)", "1/np.sqrt(s)"), "gauss")
+        add(f"gaussian:{key}:{body}", "gaussian", mkK, body in ("np.sqrt(s)", "1/np.sqrt(s)"), "gauss", outside="unsupported-key")
     # mean depends on the hyper-parameter (alone, and together with cov)
     def mkMeanOnly():
         fm = lambda s: s * np.ones(n)
         y = D.Gaussian(fm, 1.0, geometry=n, name="y")
         return D.Posterior(y.to_likelihood(b), gamma("s")), [("mean", fm), ("cov", y.cov)]
-    add("gaussian:mean-only", "gaussian", mkMeanOnly, False, "gauss")
+    add("gaussian:mean-only", "gaussian", mkMeanOnly, False, "gauss", outside="unsupported-key")
     def mkMulti():
         fm = lambda s: s * np.ones(n)
         fc = lambda s: 1 / s
         y = D.Gaussian(fm, fc, geometry=n, name="y")
         return D.Posterior(y.to_likelihood(b), gamma("s")), [("mean", fm), ("cov", fc)]
-    add("gaussian:multi(mean,cov)", "gaussian", mkMulti, False, "gauss")
+    add("gaussian:multi(mean,cov)", "gaussian", mkMulti, False, "gauss", outside="several-occurrences")
     def mkMultiGMRF():
         fm = lambda d: d * np.ones(n)
         fp = lambda d: d
         x = D.GMRF(fm, fp, geometry=n, name="x")
         return D.Posterior(x.to_likelihood(b), gamma("d")), [("mean", fm), ("prec", fp)]
-    add("gmrf:multi(mean,prec)", "gmrf", mkMultiGMRF, False, "gmrf", par="d")
+    add("gmrf:multi(mean,prec)", "gmrf", mkMultiGMRF, False, "gmrf", par="d", outside="several-occurrences")
     # wrong parameter name
     def mkName():
         f = lambda d: 1 / d
         y = D.Gaussian(np.zeros(n), f, name="y")
         return D.Posterior(y.to_likelihood(b), gamma("s")), [("mean", y.mean), ("cov", f)]
     add("gaussian:wrong-name", "gaussian", mkName, False, "gauss")
-    # non-scalar Gamma
+    # non-scalar Gamma, in all three ways: vector shape, vector rate, scalar parameters with geometry=dim
     for dim in (2, 3):
-        def mkDim(dim=dim):
-            f = lambda s: 1 / s
-            y = D.Gaussian(np.zeros(n), f, name="y")
-            return D.Posterior(y.to_likelihood(b), gamma("s", dim)), [("mean", y.mean), ("cov", f)]
-        add(f"gaussian:gamma-dim{dim}", "gaussian", mkDim, False, "gauss", prior_dim=dim)
-        def mkDimM(dim=dim):
-            f = lambda s: s
-            x = D.GMRF(np.zeros(n), f, name="x")
-            return D.Posterior(x.to_likelihood(b), gamma("s", dim)), [("mean", x.mean), ("prec", f)]
-        add(f"gmrf:gamma-dim{dim}", "gmrf", mkDimM, False, "gmrf", prior_dim=dim)
-        def mkDimL(dim=dim):
-            f = lambda s: 1 / s
-            x = D.LMRF(0, f, geometry=n, name="x")
-            return D.Posterior(x.to_likelihood(b), gamma("s", dim)), [("location", x.location), ("scale", f)]
-        add(f"lmrf:gamma-dim{dim}", "lmrf", mkDimL, False, "lmrf", prior_dim=dim)
+        for how in ("geometry", "shape", "rate"):
+            tag = f"gamma-dim{dim}-by-{how}"
+            def mkDim(dim=dim, how=how):
+                f = lambda s: 1 / s
+                y = D.Gaussian(np.zeros(n), f, name="y")
+                return D.Posterior(y.to_likelihood(b), gamma("s", dim, how)), [("mean", y.mean), ("cov", f)]
+            add(f"gaussian:{tag}", "gaussian", mkDim, False, "gauss", prior_dim=dim, outside="non-scalar-gamma")
+            def mkDimM(dim=dim, how=how):
+                f = lambda s: s
+                x = D.GMRF(np.zeros(n), f, name="x")
+                return D.Posterior(x.to_likelihood(b), gamma("s", dim, how)), [("mean", x.mean), ("prec", f)]
+            add(f"gmrf:{tag}", "gmrf", mkDimM, False, "gmrf", prior_dim=dim, outside="non-scalar-gamma")
+            def mkDimR(dim=dim, how=how):
+                f = lambda s: s
+                y = RegularizedGaussian(np.zeros(n), prec=f, constraint="nonnegativity", name="y")
+                return D.Posterior(y.to_likelihood(b), gamma("s", dim, how)), [("mean", y.mean), ("prec", f)]
+            add(f"reggaussian:{tag}", "reggaussian", mkDimR, False, "reg", prior_dim=dim, outside="non-scalar-gamma")
+            def mkDimL(dim=dim, how=how):
+                f = lambda s: 1 / s
+                x = D.LMRF(0, f, geometry=n, name="x")
+                return D.Posterior(x.to_likelihood(b), gamma("s", dim, how)), [("location", x.location), ("scale", f)]
+            add(f"lmrf:{tag}", "lmrf", mkDimL, False, "lmrf", prior_dim=dim, outside="non-scalar-gamma")
     # other priors / likelihoods
     def mkPriorG():
         f = lambda s: 1 / s
@@ -677,6 +694,8 @@ def stream_validation(ctx, cuqi, thorough):
         tie_key = f"tie:validate:{iface}:{it['label']}"
         if impl != out:
             ctx.disagree(tie_key, desc, out, impl, "validator decision differs from the model's decision procedure")
+        if impl == "ok" and it["outside"]:
+            structural_oracle(ctx, cuqi, it, iface, out, smp, target, tie_key, desc)
         if impl != "ok" or iface.startswith("approx") or it["fam"] in ("reg", "lmrf", "other"):
             continue
         # accepted by an exact conjugate sampler: it must then draw exactly (ORACLE on the implementation)
@@ -711,6 +730,48 @@ def stream_validation(ctx, cuqi, thorough):
             ctx.fail(key, desc, "unsupported dependence rejected, or drawn exactly",
                      {"accepted": True, "shape": shape, "rate": rate, "A": fit["A"], "B": fit["B"], "resid": fit["resid"], "g-g0": fit["g"]},
                      "a posterior outside the conjugate structure is accepted and sampled from a Gamma that is not proportional to it")
+
+
+def structural_oracle(ctx, cuqi, it, iface, out, smp, target, tie_key, desc):
+    """ORACLE (implementation only): the property demands that a posterior outside the supported conjugate structure --
+    non-scalar Gamma (by shape, rate or geometry), several occurrences of the hyper-parameter, a key other than cov/prec,
+    another functional dependence -- is *rejected*.  Its acceptance is itself the failing input; where a step is possible
+    the Gamma actually drawn from is exhibited against the variable it is supposed to sample."""
+    cls = it["outside"]
+    fam = it["fam"]
+    if iface in ("exp", "leg"):
+        if fam not in ("gauss", "gmrf", "reg"):
+            return
+        if iface == "leg" and cls != "non-scalar-gamma":
+            return      # legacy: no structural validation at all -- judged by the proportionality oracle (listed finding)
+    else:
+        if fam != "lmrf" or cls != "non-scalar-gamma":
+            return      # ConjugateApprox is approximate by design; only the scalar-Gamma requirement is structural
+    if out == "ok" and iface != "approxleg":
+        return          # the faithful model accepts too (probe-only validation): judged by the proportionality oracle
+    got = {"accepted": True, "class": cls, "prior_dim": int(getattr(target.prior, "dim", -1))}
+    try:
+        with Capture(cuqi) as cap, quiet():
+            r = smp.step()
+            pt = smp.current_point if hasattr(smp, "current_point") else r
+        got["gamma_draws_in_one_step"] = len(cap.calls)
+        if cap.calls:
+            c0 = cap.calls[0]
+            got["drawn_gamma_shape"] = c0["shape"].tolist()
+            got["drawn_gamma_rate"] = (1.0 / c0["scale"]).tolist()
+        got["returned_point_size"] = int(np.size(np.asarray(pt)))
+        if len(cap.calls) == 1 and len(cap.calls[0]["shape"]) == 1 and iface in ("exp", "leg") and fam in ("gauss", "gmrf") and got["prior_dim"] == 1:
+            try:
+                fit = fit_gap(target, it["par"], float(c0["shape"][0]), 1.0 / float(c0["scale"][0]))
+                if fit["finite"]:
+                    got["kernel_gap"] = {"A(log s)": fit["A"], "B(-s)": fit["B"], "resid": fit["resid"], "g-g0": fit["g"]}
+            except Exception as e:
+                got["target_logd"] = repr(e)[:80]
+    except Exception as e:
+        got["step"] = f"raised {type(e).__name__}: {str(e)[:80]}"
+    key = f"approxleg:no-validation:{it['label']}" if iface == "approxleg" else tie_key
+    ctx.fail(key, desc, f"rejected: the posterior is outside the supported conjugate structure ({cls})", got,
+             "a posterior outside the supported conjugate structure is accepted instead of rejected")
 
 
 # ----------------------------------------------------------------------------- stream C: ConjugateApprox parameters
